@@ -175,9 +175,14 @@ impl From<KnownIccTrc> for TransferFunction {
             KnownIccTrc::ParametricGamma(g) => {
                 let g = g as u64;
                 let g_1e7 = (g * 10000000 + 32768) / 65536;
-                TransferFunction::Gamma {
-                    g: g_1e7 as u32,
-                    inverted: false,
+                if let Ok(g) = u32::try_from(g_1e7) {
+                    TransferFunction::Gamma { g, inverted: false }
+                } else {
+                    // Exponent too large for the non-inverted form; use its reciprocal.
+                    TransferFunction::Gamma {
+                        g: ((65536u64 * 10000000 + g / 2) / g) as u32,
+                        inverted: true,
+                    }
                 }
             }
             KnownIccTrc::Linear => TransferFunction::Linear,
